@@ -5,6 +5,7 @@ package props
 
 import (
 	"fmt"
+	"strings"
 
 	"verif/engine/choice"
 	"verif/refmodel"
@@ -48,6 +49,8 @@ func coarseAlphabet(p int) map[string][]classOpt {
 			{"canonical", func(a *refmodel.Claims) { a.Profile = sp(canon) }},
 			{"other-url", func(a *refmodel.Claims) { a.Profile = sp("http://other.example/p") }},
 			{"p2-name", func(a *refmodel.Claims) { a.Profile = sp(refmodel.P2Name) }},
+			{"canonical-lowercase", func(a *refmodel.Claims) { a.Profile = sp(strings.ToLower(canon)) }},
+			{"canonical-trailing-space", func(a *refmodel.Claims) { a.Profile = sp(canon + " ") }},
 		}
 	} else {
 		m["profile"] = []classOpt{
@@ -56,6 +59,8 @@ func coarseAlphabet(p int) map[string][]classOpt {
 			{"other-url", func(a *refmodel.Claims) { a.Profile = sp("http://other.example/p") }},
 			{"oid", func(a *refmodel.Claims) { a.Profile = sp("1.2.3.4") }},
 			{"invalid-object", func(a *refmodel.Claims) { a.Profile = nil; a.ProfileInvalid = true }},
+			{"canonical-path-uppercase", func(a *refmodel.Claims) { a.Profile = sp("http://arm.com/PSA/2.0.0") }},
+			{"canonical-trailing-slash", func(a *refmodel.Claims) { a.Profile = sp(canon + "/") }},
 		}
 	}
 	m["client"] = []classOpt{
@@ -146,7 +151,9 @@ func coarseAlphabet(p int) map[string][]classOpt {
 	vs := func(v string) classOpt {
 		return classOpt{fmt.Sprintf("%q", v), func(a *refmodel.Claims) { a.VSI = sp(v) }}
 	}
-	m["vsi"] = []classOpt{{"absent", func(a *refmodel.Claims) { a.VSI = nil }}, vs("https://psa-verifier.org"), vs(""), vs("x"), vs("https://v.example/psa?tenant=a&api=<2>")}
+	m["vsi"] = []classOpt{{"absent", func(a *refmodel.Claims) { a.VSI = nil }}, vs("https://psa-verifier.org"), vs(""), vs("x"), vs("https://v.example/psa?tenant=a&api=<2>"),
+		// any text is a verification-service indicator: strings that are not URLs, that look like member names, that need escaping
+		vs("100%"), vs("a\tb"), vs(":8443"), vs("http://[::1"), vs("psa-profile"), vs("eat-profile"), vs("a\ufffdb"), vs("v\x00")}
 	return m
 }
 
